@@ -880,8 +880,15 @@ def enum_cases():
                     yield {'t': 'red', 'L': {'k': 'sv', 'v': list(L)}, 'f': f, 'axis': None, 'keepdims': keep}
 
 
+REGRESSION = [
+    {'t': 'set', 'L': {'k': 'sv', 'v': [1.0, 2.0, 0.0, 4.5]}, 'ix': {'t': 'slice'}, 'V': {'k': 'list', 'v': [0.0, 1.0]}, 'must_reject': True},
+]
+
+
 def run(rec, rng, tier, shard, nshards):
     quick = tier == 'quick'
+    if shard == 0:
+        for case in REGRESSION: run_case(case, rec)
     n_rand = 9000 if quick else 150000
     n_hist = 700 if quick else 12000
     maxlen = 30
